@@ -6,7 +6,7 @@ from __future__ import annotations
 import ast
 import re
 
-from ..astutil import call_attr, calls_in, guard_facts, unparse, walk_local
+from ..astutil import alpha_text, call_attr, calls_in, guard_facts, unparse, walk_local
 from ..cfg import CFG
 from ..dataflow import reaching_defs, resolved_text
 from ..report import Finding, Report
@@ -141,7 +141,7 @@ def check_stack(idx: Index, rep: Report) -> None:
             continue
         n_app += 1
         nf = pth.nfacts()
-        ix = pth.res(ast.parse("index", mode="eval").body, apps[0])
+        ix = pth.res(pth.effects[apps[0]].value.args[-1], apps[0])  # type: ignore[union-attr]  # the index that is made available
         neg = any((t_ in (f"{ix} < 0", "index < 0") and p_) or (t_ in (f"{ix} >= 0", f"0 <= {ix}", "index >= 0", "0 <= index") and not p_) for t_, p_ in nf)
         reserved = next((p_ for t_, p_ in nf if re.fullmatch(r".+ in self\.reserved_registers\[.+\]", t_)), None)
         allocatable = next((p_ for t_, p_ in nf if re.fullmatch(r".+ in self\.allocatable_registers\[.+\]", t_)), None)
@@ -224,9 +224,9 @@ def check_stack(idx: Index, rep: Report) -> None:
         else:
             r.ok(h.fq, f"{h.loc} only the reservation count changes")
     cm = idx.func(RS, "RegisterStack.reserve_registers")
-    body = [unparse(s) for s in cm.node.body if not (isinstance(s, ast.Expr) and isinstance(s.value, ast.Constant))]
+    body = [alpha_text(s) for s in cm.node.body if not (isinstance(s, ast.Expr) and isinstance(s.value, ast.Constant))]
     regs = cm.node.args.args[1].arg
-    if body == [f"for reg in {regs}:\n    self.reserve_register(reg)", "yield", f"for reg in {regs}:\n    self.unreserve_register(reg)"]:
+    if body == [f"for _a0 in {regs}:\n    self.reserve_register(_a0)", "yield", f"for _a0 in {regs}:\n    self.unreserve_register(_a0)"]:
         r.ok(cm.fq, f"{cm.loc} reserve ... yield ... unreserve over the same registers")
     else:
         r.fail(cm.fq, Finding("C19.R2", cm.fq, "unpaired-reservation", "the reservation context manager must reserve and unreserve exactly the same registers", cm.loc))
@@ -312,13 +312,20 @@ def check_live_ins(idx: Index, rep: Report) -> None:
     r = rep.rule("C19.R5", "live-ins of a block: every operation's operands are added (also for region-holding ops), its results and the block arguments removed, nested blocks' live-ins included", floor=1)
     f = idx.func(RA, "_live_ins_per_block")
     cfg = CFG(f.node)
-    loops = [w for w in walk_local(f.node) if isinstance(w, ast.For) and unparse(w.iter) == "reversed(block.ops)"]
+    blk, accp = f.node.args.args[0].arg, f.node.args.args[1].arg
+    loops = [w for w in walk_local(f.node) if isinstance(w, ast.For) and unparse(w.iter) == f"reversed({blk}.ops)" and isinstance(w.target, ast.Name)]
     if len(loops) != 1:
         raise AnalysisError(f"{f.fq}: backward loop over the block's operations not found")
     w = loops[0]
     head = cfg.node_of(w)
-    upd = {cfg.node_of(c) for c in calls_in(w) if unparse(c) == "res.update(op.operands)"}
-    rem = {cfg.node_of(c) for c in calls_in(w) if unparse(c) == "res.difference_update(op.results)"}
+    opv = w.target.id
+    # the accumulated set: what the function returns
+    rets = [n for n in walk_local(f.node) if isinstance(n, ast.Return) and isinstance(n.value, ast.Name)]
+    if len(rets) != 1:
+        raise AnalysisError(f"{f.fq}: `return <set>` not found")
+    res = rets[0].value.id  # type: ignore[union-attr]
+    upd = {cfg.node_of(c) for c in calls_in(w) if unparse(c) == f"{res}.update({opv}.operands)"}
+    rem = {cfg.node_of(c) for c in calls_in(w) if unparse(c) == f"{res}.difference_update({opv}.results)"}
     problems = []
     starts = [m for m, lab in cfg.succ[head] if lab == "T"]
     for nodes, what in ((upd, "operands-not-added"), (rem, "results-not-removed")):
@@ -327,9 +334,18 @@ def check_live_ins(idx: Index, rep: Report) -> None:
     if upd and rem and not all(u in cfg.reachable(x) for u in upd for x in rem):
         problems.append("order")
     t = unparse(f.node)
-    if "res.update(_live_ins_per_block(inner, acc))" not in t:
+    nested = [c for c in calls_in(w) if unparse(c.func) == f"{res}.update" and len(c.args) == 1 and isinstance(c.args[0], ast.Call) and unparse(c.args[0].func) == f.name and len(c.args[0].args) == 2 and unparse(c.args[0].args[1]) == accp]
+    nested_ok = False
+    for c in nested:
+        inner = unparse(c.args[0].args[0])  # type: ignore[attr-defined]
+        l_in = [x for x in walk_local(w) if isinstance(x, ast.For) and unparse(x.target) == inner and any(y is c for y in ast.walk(x))]
+        if l_in and (m_ := re.fullmatch(r"(\w+)\.blocks", unparse(l_in[-1].iter))):
+            l_out = [x for x in walk_local(w) if isinstance(x, ast.For) and unparse(x.target) == m_.group(1) and any(y is c for y in ast.walk(x))]
+            if l_out and unparse(l_out[-1].iter) == f"{opv}.regions":
+                nested_ok = True
+    if not nested_ok:
         problems.append("nested-blocks-ignored")
-    if "res.difference_update(block.args)" not in t:
+    if f"{res}.difference_update({blk}.args)" not in t:
         problems.append("block-args-not-removed")
     if problems:
         msg = {"operands-not-added": "a path through the loop body skips `res.update(op.operands)` (e.g. for operations that hold regions): operands of a nested loop are no longer live-ins of the enclosing block and get registers that are already in use",
